@@ -29,14 +29,15 @@ package pgo
 
 //@ func (a *posAdjuster) Position(pos) (p)
 //@   requires a.Fset != nil && a.File != nil
-//@   requires typing: fsFileOf(a.Fset, pos) != nil
 //@   assigns nothing
 
 // A position of the augmented text is mapped back to the patch: by its offset, reduced by what the
-// augmentations before it inserted, never before the start of the patch (C13, C19).
+// augmentations before it inserted, never before the start of the patch (C13, C19). That the positions handed
+// to the adjuster lie in a file of the file set (they are positions of nodes go/parser just produced) is
+// assumed (the `unfold`).
 //@ func (a *posAdjuster) Pos(pos) (p)
 //@   requires a.Fset != nil && a.File != nil
-//@   requires typing: fsFileOf(a.Fset, pos) != nil
+//@   unfold fsFileOf(a.Fset, pos) != nil
 //@   at call (*go/token.File).Pos assert [C13,C19] mapped-into-the-patch-file-never-before-its-start: arg0 == a.File && arg1 >= 0
 //@   assigns nothing
 
